@@ -13,6 +13,7 @@ import (
 
 	"verif/harness/impl"
 	"verif/harness/tracegen"
+	"verif/harness/wire"
 )
 
 type line struct {
@@ -30,6 +31,8 @@ func main() {
 	steps := flag.Int("steps", 30, "commands per programme")
 	out := flag.String("out", "trace.ndjson", "output")
 	pbase := flag.Int("pbase", 0, "first programme number")
+	mode := flag.String("mode", "inproc", "inproc (Manager.ExecCommand) | pipe (pipelined through Manager.Handle over net.Pipe) | tcp (pipelined to -addr)")
+	addr := flag.String("addr", "", "host:port of a running server (mode tcp)")
 	flag.Parse()
 
 	f, err := os.Create(*out)
@@ -45,6 +48,7 @@ func main() {
 		"zset": {"z1", "z2", "Z1"}, "stream": {"x1", "x2", "X1"},
 	}
 	panics := 0
+	wireProblems := 0
 	for p := 0; p < *progs; p++ {
 		pn := *pbase + p
 		srv := impl.NewSrv(1)
@@ -57,26 +61,91 @@ func main() {
 		for i := 0; i < n; i++ {
 			cmds = append(cmds, g.Next())
 		}
-		for ci, c := range cmds {
+		emit := func(ci int, c []string, now int64, rep impl.Reply) {
 			argv := impl.S(c...)
 			ev := "cmd"
 			if ci < nsetup {
 				ev = "setup"
 			}
-			now := time.Now().Unix()
-			rep := srv.Exec(argv)
 			av := make([][]int, len(argv))
 			for i, a := range argv {
 				av[i] = impl.B2I(a)
 			}
 			enc.Encode(line{Ev: ev, P: pn, Now: now, Argv: av, Reply: &rep})
-			if rep.K == "panic" {
-				panics++
-				break // the keyspace may hold a lock / be inconsistent: end this programme
+		}
+		if *mode == "inproc" {
+			for ci, c := range cmds {
+				now := time.Now().Unix()
+				rep := srv.Exec(impl.S(c...))
+				emit(ci, c, now, rep)
+				if rep.K == "panic" {
+					panics++
+					break // the keyspace may hold a lock / be inconsistent: end this programme
+				}
+			}
+			continue
+		}
+		// wire modes: the programme is sent as pipelined batches of random size; replies are decoded independently
+		var wc *wire.Conn
+		if *mode == "pipe" {
+			wc = wire.NewPipe(1)
+		} else {
+			var err error
+			wc, err = wire.DialTCP(*addr)
+			if err != nil {
+				fmt.Fprintln(os.Stderr, "dial:", err)
+				os.Exit(2)
+			}
+			// clean keyspace: delete every key left by the previous programme
+			res := wc.Batch([][][]byte{impl.S("KEYS", "*")}, 3*time.Second)
+			if res.Problem == "" && len(res.Replies) == 1 {
+				for _, k := range res.Replies[0].A {
+					wc.Batch([][][]byte{{[]byte("DEL"), impl.I2B(k.V)}}, 3*time.Second)
+				}
 			}
 		}
+		wc.R = rand.New(rand.NewSource(g.R.Int63()))
+		for i := 0; i < len(cmds); {
+			n := 1 + g.R.Intn(16)
+			if i+n > len(cmds) {
+				n = len(cmds) - i
+			}
+			// every command is followed by PING <nonce>: the echo pins reply count and order independently of content
+			var batch [][][]byte
+			var nonces []string
+			for _, c := range cmds[i : i+n] {
+				nonce := fmt.Sprintf("n%d-%d", pn, g.R.Int63())
+				nonces = append(nonces, nonce)
+				batch = append(batch, impl.S(c...), impl.S("PING", nonce))
+			}
+			now := time.Now().Unix()
+			res := wc.Batch(batch, 5*time.Second)
+			bad := res.Problem
+			detail := res.Detail
+			nOK := 0
+			for j := 0; j+1 < len(res.Replies); j += 2 {
+				echo := res.Replies[j+1]
+				if echo.K != "str" || string(impl.I2B(echo.V)) != nonces[j/2] {
+					if bad == "" {
+						bad, detail = "misaligned", fmt.Sprintf("reply %d should echo %s, got %s %q", j+2, nonces[j/2], echo.K, impl.I2B(echo.V))
+					}
+					break
+				}
+				emit(i+j/2, cmds[i+j/2], now, res.Replies[j])
+				nOK++
+			}
+			if bad != "" {
+				wireProblems++
+				if nOK < n {
+					emit(i+nOK, cmds[i+nOK], now, impl.Reply{K: "wire-" + bad, V: []int{}, A: []impl.Reply{}, E: detail})
+				}
+				break
+			}
+			i += n
+		}
+		wc.Close()
 	}
 	w.Flush()
 	f.Close()
-	fmt.Printf("programmes=%d panics=%d\n", *progs, panics)
+	fmt.Printf("programmes=%d panics=%d wire_problems=%d\n", *progs, panics, wireProblems)
 }
